@@ -1,9 +1,9 @@
 CONSTANTS
   CYears = {2019,2020}
-  CMonths = {2,12}
+  CMonths = {2}
   CDays = {28}
   CHours = {9,23}
-  CQuanta = {"YMDH","MD"}
+  CQuanta = {"YMDH","MD","YM"}
   NSV = {FALSE}
   Variant = "fixed"
   Order = "code"
